@@ -73,6 +73,7 @@ fn main() {
                     n_runs: g("--n"),
                     known,
                     deadline_s: arg_val(&args, "--deadline").and_then(|s| s.parse().ok()).unwrap_or(1e9),
+                    heartbeat: arg_val(&args, "--hb").map(PathBuf::from),
                 },
             );
         },
